@@ -331,6 +331,17 @@ structure MFaults where
   bodyS : Bool
   bodyB : Nat → Bool
 
+/-- Round 10: destination blocks with a check that cannot create its state object: its
+`CheckStateForMsg` fails for every message (backend down), and every check listed before it in the
+block is a global or source check, so it already has its state when a RCPT command gets to the block.
+`checkStates` then returns the error out of its creation loop: no `Check*` call has been made, no state
+object was created before it (so `closeStates()` drops none), `checkRcpt` returns before it records
+the recipient a third time, `AddRcpt` returns before `getRcptModifiers`.  That is the place and the
+effect the model gives a failing `RewriteRcpt` of the source group (`rcptS`, see `addRcpt`): the
+command is refused right before the block's checks, everything else is as it was. -/
+def MFaults.withDeadBlocks (mf : MFaults) (route : Rcpt → Nat) (dead : Nat → Bool) : MFaults :=
+  { mf with rcptS := fun r => mf.rcptS r || dead (route r) }
+
 /-- No modifier ever fails. -/
 def MFaults.none : MFaults := ⟨false, false, fun _ => false, fun _ => false, fun _ => false, false, false, fun _ => false⟩
 
